@@ -139,12 +139,24 @@ func VerifC05Atomic(h *verifh.H) {
 		b2 = []*mVersion{{ID: "ns0:e3", Props: map[string]string{"ns0:v": "y"}, Refs: map[string][]string{}}}
 	}
 	ds := hs.dss["d"]
+	ds2 := ds
+	obsName := "d"
+	if twoWriters && h.Choice("renamed", 2) == 1 {
+		// the dataset was renamed while the first client held on to its handle (a multi-batch upload,
+		// a job's sink): the second client looks it up under the new name — the same dataset, the same
+		// lock
+		_, err := hs.hub.Dsm.UpdateDataset("d", &UpdateDatasetConfig{ID: "d2"})
+		h.Assert(err == nil, "rename accepted")
+		ds2 = hs.hub.Dsm.GetDataset("d2")
+		h.Assert(ds2 != nil, "dataset found under its new name")
+		obsName = "d2"
+	}
 	var seen []string
 	h.SymbolicTxns() // every Badger transaction start of /repo code is a scheduling point too
 	h.SymbolicSched(h.Param("preemptions", 2))
 	h.Go(func() { _ = ds.StoreEntities(ents(b1)) })
 	if twoWriters {
-		h.Go(func() { _ = ds.StoreEntities(ents(b2)) })
+		h.Go(func() { _ = ds2.StoreEntities(ents(b2)) })
 	} else {
 		h.Go(func() {
 			res, err := ds.GetEntities("", -1)
@@ -165,7 +177,7 @@ func VerifC05Atomic(h *verifh.H) {
 		s21 := mClone(pre)
 		s21.write("d", b2)
 		s21.write("d", b1)
-		got := vObsCore(h, hs.hub, "d")
+		got := vObsCore(h, hs.hub, obsName)
 		h.Assert(got == mObsCore(s12, "d") || got == mObsCore(s21, "d"), "two concurrent batches leave the dataset as some serial order would :: got="+got)
 		// ... including its catalogue entry: both batches were acknowledged, the items counter
 		// counts every distinct id they stored
@@ -173,7 +185,7 @@ func VerifC05Atomic(h *verifh.H) {
 		if tw == 2 {
 			wantItems = "3"
 		}
-		h.Assert(vItems(h, hs.hub, "d") == wantItems, "after two acknowledged concurrent batches the dataset's items counter counts every distinct id stored :: items="+vItems(h, hs.hub, "d")+" want="+wantItems)
+		h.Assert(vItems(h, hs.hub, obsName) == wantItems, "after two acknowledged concurrent batches the dataset's items counter counts every distinct id stored :: items="+vItems(h, hs.hub, obsName)+" want="+wantItems)
 	} else {
 		preList := "list=" + vJoin(vSorted(mListRender(pre, "d")))
 		postList := "list=" + vJoin(vSorted(mListRender(post1, "d")))
